@@ -4,6 +4,12 @@ from ..absint import is_agg, agg_field
 
 
 def run(ctx):
+    _run(ctx)
+    ctx.delegate("C06", ["C06.dispatch"], "C19.decode",
+                 "every record's type code is decoded (and an invalid one refused) before anything is made of the record: the generic "
+                 "reader has one arm per code and an error for the rest", floor=14)
+
+def _run(ctx):
     F = ctx.facts("default")
     sp = util.spec()
     codes = {s["code"]: s["name"] for s in sp["shape_types"]}
